@@ -3,6 +3,7 @@ package scen
 import (
 	"encoding/json"
 	"fmt"
+	"strings"
 
 	"github.com/crillab/gophersat/solver"
 
@@ -18,7 +19,7 @@ type c05 struct{}
 func (c05) ID() string    { return "C05" }
 func (c05) Level() string { return "exploration" }
 func (c05) Rule() string {
-	return "cases = problems (CNF families T2/S3 with declared-but-unused variables, S4, L6, conflict-rich seeds; the empty problem over 0..3 variables; cardinality/PB constraint sets of C02 restricted to singles, card pairs and the decreasing-coefficient family) x mode (CountModels, Enumerate without channel, Enumerate with channel, each also after a prior Solve) x heuristic choice list (<=1 deviation: decision steering, forced restart or database reduction between models). Oracle: truth-table model set over the declared variables: count, number of delivered models, delivered multiset (each model exactly once), channel closed. Non-trivial = the reference has at least 2 models or the run met a conflict."
+	return "cases = problems (CNF families T2/S3 with declared-but-unused variables, S4, L6, conflict-rich seeds; the empty problem over 0..3 variables; cardinality/PB constraint sets of C02 restricted to singles, card pairs and the decreasing-coefficient family; MO, a seeded catalogue of weighted PB problems over 8..12 variables with all one-edit neighbours) x mode (CountModels, Enumerate without channel, Enumerate with channel, each also after a prior Solve) x heuristic choice list (<=1 deviation: decision steering, forced restart or database reduction between models). Oracle: truth-table model set over the declared variables: count, number of delivered models, delivered multiset (each model exactly once), channel closed. Non-trivial = the reference has at least 2 models or the run met a conflict."
 }
 func (c05) Assumptions() []string {
 	return []string{"truth-table reference is correct", "the model channel is buffered larger than twice the assignment space; concurrency of the stream is C20's subject"}
@@ -100,6 +101,25 @@ func (c05) Enumerate(tier string, seed int64, yield func(string, core.Case) bool
 		return emit("R", cnfProb("slicenb", f, n, n), 1, three[:2])
 	}) {
 		return
+	}
+	// MO: the weighted PB problems of the optimisation catalogue (8..12 variables), cost function ignored
+	{
+		nseeds := 200
+		if thorough {
+			nseeds = 600
+		}
+		mi := 0
+		if !enumOptCatalogue(seed, nseeds, func(name string, p Prob) bool {
+			if strings.Contains(name, "-cost") {
+				return true
+			}
+			mi++
+			q := p
+			q.CostL, q.CostW = nil, nil
+			return emit(name, q, 0, three[mi%3:mi%3+1])
+		}) {
+			return
+		}
 	}
 	enumConstraintSets(tier, func(fam string, p Prob) bool {
 		switch fam {
